@@ -14,13 +14,13 @@ use parking_lot::{
 use tokio::sync::Mutex;
 
 use crate::base::iana::{Class, Rtype};
-use crate::base::name::{Label, OwnedLabel, ToName};
+use crate::base::name::{Label, NameBuilder, OwnedLabel, ToName};
 use crate::zonetree::error::{CnameError, OutOfZone, ZoneCutError};
 use crate::zonetree::types::{StoredName, ZoneCut};
 use crate::zonetree::util::rel_name_rev_iter;
 use crate::zonetree::walk::WalkState;
 use crate::zonetree::{
-    ReadableZone, SharedRr, SharedRrset, WritableZone, ZoneStore,
+    ReadableZone, Rrset, SharedRr, SharedRrset, WritableZone, ZoneStore,
 };
 
 use super::read::ReadZone;
@@ -102,6 +102,16 @@ impl ZoneApex {
     pub fn remove_all(&self, version: Version) {
         self.rrsets.remove_all(version);
         self.children.remove_all(version);
+    }
+
+    /// Calls `op` with every RRset the zone holds in `version`.
+    pub(super) fn for_each_rrset(
+        &self,
+        version: Version,
+        op: &mut dyn FnMut(&StoredName, &SharedRrset),
+    ) {
+        self.rrsets.for_each_rrset(&self.apex_name, version, op);
+        self.children.for_each_rrset(&self.apex_name, version, op);
     }
 
     pub fn versions(&self) -> &RwLock<ZoneVersions> {
@@ -229,6 +239,32 @@ impl ZoneNode {
         self.special.write().remove(version);
         self.children.remove_all(version);
     }
+
+    /// Calls `op` with every RRset the node and the nodes below it hold in
+    /// `version`, including the records kept as zone cut or CNAME.
+    pub(super) fn for_each_rrset(
+        &self,
+        owner: &StoredName,
+        version: Version,
+        op: &mut dyn FnMut(&StoredName, &SharedRrset),
+    ) {
+        self.rrsets.for_each_rrset(owner, version, op);
+        self.with_special(version, |special| match special {
+            Some(Special::Cut(cut)) => {
+                op(owner, &cut.ns);
+                if let Some(ds) = &cut.ds {
+                    op(owner, ds);
+                }
+            }
+            Some(Special::Cname(cname)) => {
+                let mut rrset = Rrset::new(Rtype::CNAME, cname.ttl());
+                rrset.push_data(cname.data().clone());
+                op(owner, &SharedRrset::new(rrset));
+            }
+            _ => {}
+        });
+        self.children.for_each_rrset(owner, version, op);
+    }
 }
 
 //------------ NodeRrsets ----------------------------------------------------
@@ -296,6 +332,19 @@ impl NodeRrsets {
             .write()
             .values_mut()
             .for_each(|rrset| rrset.remove(version));
+    }
+
+    fn for_each_rrset(
+        &self,
+        owner: &StoredName,
+        version: Version,
+        op: &mut dyn FnMut(&StoredName, &SharedRrset),
+    ) {
+        for rrset in self.rrsets.read().values() {
+            if let Some(rrset) = rrset.get(version) {
+                op(owner, rrset);
+            }
+        }
     }
 
     pub(super) fn iter(&self) -> NodeRrsetsIter<'_> {
@@ -401,6 +450,20 @@ impl NodeChildren {
             .read()
             .values()
             .for_each(|item| item.remove_all(version))
+    }
+
+    fn for_each_rrset(
+        &self,
+        owner: &StoredName,
+        version: Version,
+        op: &mut dyn FnMut(&StoredName, &SharedRrset),
+    ) {
+        for (label, node) in self.children.read().iter() {
+            let mut builder = NameBuilder::new_bytes();
+            builder.append_label(label.as_slice()).unwrap();
+            let child_owner = builder.append_origin(owner).unwrap();
+            node.for_each_rrset(&child_owner, version, op);
+        }
     }
 
     pub(super) fn walk(
